@@ -532,6 +532,7 @@ def run(m, tier):
     results.append(guard_rules.int_operand_rule(m, "C06.R17"))
     results.append(guard_rules.match_object_rule(m, "C06.R18"))
     results.append(optional_rules.accessor_index_rule(m, "C06.R19"))
+    results.append(order_rules.definite_none_rule(m, "C06.R21"))
     from rules import C08
     from sa.report import retag
     results.append(retag(C08.r4_opener_index(m), "C06.R20", "the block engine calls the get_start_*() protocol on content[start_idx], never on a "
